@@ -67,7 +67,7 @@ def verus_route(pid, tier):
         uf = pl.assemble(u, metas[u])
         ufs[u] = uf
         jobs.append(((u, "root"), uf.path, "root"))
-        for k in uf.nl_modes:
+        for k in uf.nl_modes + uf.ex_modes:
             jobs.append(((u, k), uf.path, k))
         jobs.append(((u, "canary"), uf.path, "canary"))
     # big units first
@@ -75,6 +75,7 @@ def verus_route(pid, tier):
     res = pl.run_many(jobs)
     for u, uf in ufs.items():
         res[(u, "nl")] = pl.merge_results([res[(u, k)] for k in uf.nl_modes])
+        res[(u, "root")] = pl.merge_results([res[(u, "root")]] + [res[(u, k)] for k in uf.ex_modes])
     obs = []
     info = dict(units={}, expand_s=round(t_exp, 1))
     for u, uf in ufs.items():
